@@ -173,6 +173,45 @@ Theorem C05_writer_tail_is_stream : forall opt seg meta ops,
 Proof. exact w_run_inv. Qed.
 Print Assumptions C05_writer_tail_is_stream.
 
+(* the head of every segment: crc record, metadata and — when there is one — the hard state as of the cut,
+   so a reader that Open() starts at this segment (a reopen at a later snapshot marker) knows the newest hard
+   state saved before it *)
+Theorem C05_segment_head : forall opt seg meta ops,
+  data_ok meta -> Forall op_wf ops ->
+  exists c0 recs, tinv (w_run opt seg meta ops) c0 recs /\
+    exists st0 rest, recs = (c_crcType, None) :: (c_metadataType, w_meta (w_run opt seg meta ops)) ::
+                            (if hs_is_empty st0 then [] else [(c_stateType, Some (hs_marshal st0))]) ++ rest.
+Proof. exact w_run_head. Qed.
+Print Assumptions C05_segment_head.
+
+(* a cut starts the new segment with exactly that head, the state being the wal's current hard state *)
+Theorem C05_cut_writes_head : forall w c0 recs,
+  tinv w c0 recs -> exists c0', tinv (w_cut w) c0' (hdr (w_meta w) (w_state w)) /\ w_meta (w_cut w) = w_meta w.
+Proof. exact w_cut_head. Qed.
+Print Assumptions C05_cut_writes_head.
+
+(* segment files: sequence numbers are consecutive whatever the history (cuts, ReleaseLockTo + purge), so
+   isValidSeq accepts every suffix of the directory and Open never fails on the order of the files it wrote;
+   searchIndex picks the LAST file whose name index is <= the snapshot index *)
+Theorem C05_sequence_numbers_consecutive : forall opt seg meta ops,
+  exists first, consecutive first (seqs_of (w_run opt seg meta ops)).
+Proof. exact w_run_names. Qed.
+Print Assumptions C05_sequence_numbers_consecutive.
+
+Theorem C05_written_directory_valid_seq : forall opt seg meta ops k,
+  valid_seq (skipn k (w_files (w_run opt seg meta ops))) 0 = true.
+Proof. exact written_directory_valid_seq. Qed.
+Print Assumptions C05_written_directory_valid_seq.
+
+Theorem C05_search_index_is_last_le : forall files index i best,
+  search_index files index i best =
+  match find (fun p => sg_idx (snd p) <=? index) (rev (combine (seq i (length files)) files)) with
+  | Some (j, _) => Some j
+  | None => best
+  end.
+Proof. exact search_index_spec. Qed.
+Print Assumptions C05_search_index_is_last_le.
+
 (* (4) synced ⊑ p for the sync points the code really produces (W1: with optimizedFsync these are only
    vote/term changes and explicit Sync): every image of the first segment that keeps the bytes covered by
    the last completed fdatasync returns the records saved before it, whatever the rest of the image is *)
